@@ -90,6 +90,12 @@ func checkSteered(c steerT) (msg string, classes []string, err error) {
 	if !sender.VerifSetSequenceNumber(gopcuaLastBeforeWrap - uint32(c.Back)) {
 		return "", nil, fmt.Errorf("sender channel has no active instance")
 	}
+	// the receiver is moved along (it may reject a number that is more than 2^31 ahead)
+	if c.Dir == "s2c" {
+		p.Client.VerifSetReceivedSequenceNumber(gopcuaLastBeforeWrap - uint32(c.Back))
+	} else {
+		p.Server.VerifSetReceivedSequenceNumber(gopcuaLastBeforeWrap - uint32(c.Back))
+	}
 	before := len(p.Tap.Frames())
 
 	ctx, cancel := context.WithTimeout(context.Background(), 2*waitBound)
